@@ -110,16 +110,24 @@ func (c *wideCircuit) Define(api frontend.API) error {
 	// entry whose last wire is produced by the multiplication created just before the lookup, so
 	// that for some task count a producer ends one task chunk and its lookup starts the next
 	var lookups []frontend.Variable
+	type pending struct {
+		k    int
+		prod frontend.Variable
+		i    int
+	}
+	var pend *pending
 	for i := range c.X {
 		lvl[i] = api.Mul(c.X[i], c.X[(i+1)%len(c.X)])
-		if i%13 == 5 {
-			k := i / 13
-			prod := api.Mul(c.X[(i+3)%len(c.X)], c.X[(i+4)%len(c.X)])
+		if i%20 == 2 { // the producer of a table entry ...
+			pend = &pending{k: i / 20, prod: api.Mul(c.X[(i+3)%len(c.X)], c.X[(i+4)%len(c.X)]), i: i}
+		}
+		if i%20 == 17 && pend != nil { // ... and, 15 instructions later, the table and its lookup
 			t := logderivlookup.New(api)
-			t.Insert(c.X[(i+5)%len(c.X)])
-			t.Insert(api.Add(c.X[(i+6)%len(c.X)], prod))
-			q := t.Lookup(c.B[k])
+			t.Insert(c.X[(pend.i+5)%len(c.X)])
+			t.Insert(api.Add(c.X[(pend.i+6)%len(c.X)], pend.prod))
+			q := t.Lookup(c.B[pend.k])
 			lookups = append(lookups, q[0])
+			pend = nil
 		}
 	}
 	for i := range lvl {
@@ -170,8 +178,8 @@ func wideWitnesses(rng *rand.Rand, p *big.Int, n int) []Wit {
 		n := len(x)
 		kk := 0
 		for i := 0; i < n; i++ {
-			if i%13 == 5 {
-				k := i / 13
+			if i%20 == 2 && i+15 < n {
+				k := i / 20
 				e0 := x[(i+5)%n]
 				e1 := new(big.Int).Add(x[(i+6)%n], new(big.Int).Mul(x[(i+3)%n], x[(i+4)%n]))
 				q := e0
